@@ -97,6 +97,15 @@ func checkC08(c *Ctx) {
 		}
 	}, "C11/ORDER/add/(*file.Store).AddMessage:no-removal-in-between", "C08/CAP/newest-survives", "file store: between writing the new message's raw file and updating the index nothing can remove the mailbox directory (an eviction that empties the mailbox, e.g. cap 1, would delete the message being delivered)")
 	r.Floor("C08/CAP/newest-survives", "borrowed ordering obligations", nB, 1)
+	// the cap check, the eviction and the append are one step with respect to other deliveries
+	// to the same mailbox (decided by C09's bucket-lock rule): two overlapping deliveries that
+	// both see the pre-insertion length leave the mailbox above the cap
+	nC := c.borrow(func(c2 *Ctx) {
+		if pm2 := c2.pairing(); pm2.ok {
+			c2.c09File(pm2)
+		}
+	}, "C09/GUARD/file/(*file.Store).AddMessage", "C08/CAP/atomic", "file store: AddMessage evicts down to the cap and appends the new message inside one critical section of the mailbox's bucket lock")
+	r.Floor("C08/CAP/atomic", "borrowed obligations", nC, 1)
 }
 
 func (c *Ctx) c08Enforcer(pm *pairModel) {
